@@ -154,6 +154,34 @@ def run(chk):
                key='C10-L|%s|view' % fq)
 
     # ---- O order agreement between list and by-name index on positional replacement
+    # ---- V: an element found through a proxy of another tree is copied, never attached
+    chk.rule('C10-V', 'ElementList.set never attaches the element object it finds in an ElementProxy (the result of a by-name look-up '
+                      'in some tree): it copies it by value through its ER7 text, so no element is listed by two parents')
+    el_ = ix.cls('core.ElementList')
+    st_ = el_.methods.get('set') if el_ is not None else None
+    if st_ is None:
+        raise AnalysisError('ElementList.set not found')
+    vp_ = st_.call_params()[1]
+    # every subscript of the proxy value is consumed by `.to_er7()`; the proxy value itself is re-bound to that text
+    subs_ = [n for n in own_nodes(st_.node) if isinstance(n, ast.Subscript) and isinstance(n.ctx, ast.Load) and norm(n.value) == vp_]
+    proxy_tests_ = [n for n in own_nodes(st_.node) if isinstance(n, ast.Call) and norm(n.func) == 'isinstance' and len(n.args) == 2 and
+                    norm(n.args[0]) == vp_ and 'ElementProxy' in norm(n.args[1])]
+    if not proxy_tests_:
+        raise AnalysisError('ElementList.set no longer tests its value for ElementProxy')
+    leaks_ = []
+    for n in subs_:
+        par_ = getattr(n, '_parent', None)
+        ok_ = isinstance(par_, ast.Attribute) and par_.attr == 'to_er7' and isinstance(getattr(par_, '_parent', None), ast.Call)
+        # reading an attribute of the found element for a comparison (version, name) does not attach it
+        cmp_ = isinstance(par_, ast.Attribute) and isinstance(getattr(par_, '_parent', None), ast.Compare)
+        if not (ok_ or cmp_):
+            leaks_.append(n)
+    chk.ob('C10-V', 'set() uses the element found in a proxy only through .to_er7()', bool(subs_) and not leaks_,
+           '`%s` hands the element object itself on: it is then attached to this element while the tree it was found in still lists '
+           'it (one object, two parents; its parent pointer names only one of them)' % (norm(getattr(leaks_[0], '_parent', leaks_[0]))[:60] if leaks_ else
+                                                                                      'no use of %s[..]' % vp_),
+           '%s:%d' % (st_.module.relpath, (leaks_[0] if leaks_ else st_.node).lineno), key='C10-V|set')
+
     chk.rule('C10-P', 'the parent / traversal_parent of an element are assigned only where it is attached or promoted (constructor, '
                       '_can_add_child, set_parent_to_traversal, the two setters): any other code that re-points or clears them makes '
                       'an element that is still listed elsewhere disown its parent')
